@@ -119,6 +119,16 @@ C02_Bystanders(preSt, before, after, chart) ==
     (o \notin NamedIn(preSt) \cup NamedIn(before.store) \cup NamedIn(after.store) \cup NamedByChart(chart))
       => after.cluster[o] = before.cluster[o]
 
+\* ... and an object somebody else created under a name the restored manifest uses (it is not in the manifest the
+\* rollback starts from, it exists, it does not carry this release's ownership metadata) is not the release's
+\* either: a rollback that succeeds has not touched it (install / upgrade: refusal, C07)
+C02_Strangers(pre, post, s) ==
+  (s.u.kind = "rollback" /\ ~s.u.dry /\ s.ok /\ s.crs # {} /\ Revs(pre.store) # {}) =>
+    LET cur == pre.store[MaxOf(Revs(pre.store))].man
+        new == post.store[MaxOf(s.crs)].man IN
+    \A o \in (DOMAIN new) \ (DOMAIN cur) :
+      (~IsAbsent(pre.cluster[o]) /\ pre.cluster[o].own # "me") => post.cluster[o] = pre.cluster[o]
+
 C02_Uninstall(pre, post, s) ==
   (s.u.kind = "uninstall" /\ ~s.u.dry /\ s.flt = {} /\ Revs(pre.store) # {}) =>
     LET man == pre.store[MaxOf(Revs(pre.store))].man IN
